@@ -18,6 +18,7 @@ proved where the callbacks are modelled (C13, C14) and otherwise only searched b
 harness (`harness/c11.go`), which says so in the evidence.
 -/
 import CtyModel.Lemmas.StdProto
+import CtyModel.Lemmas.StdOblType
 import CtyModel.Props.C10
 namespace CtyModel
 namespace C11
@@ -172,6 +173,155 @@ theorem tables_agree :
       p.1.nparams = p.2.params.length ∧ p.1.hasVarParam = p.2.varParam.isSome := by
   refine ⟨by decide, ?_⟩
   decide
+
+/-! ## Per-function obligations, discharged for the modelled callbacks (C13 models, `Stdlib/*.lean`)
+
+`typeMono_<f>`: the `Type` callback of `<f>` AS WRITTEN (including its looks at known-ness,
+null-ness, lengths and keys of the argument values) is monotone — for ALL argument lists, also
+ones the protocol would never hand it.  Where that is false of the code the full statement is a
+`def … : Prop` with a `_partial` theorem (explicit side condition) and a `_counterexample`. -/
+
+open Stdlib in
+/-- `pass1` hands the `Type` callback exactly `typeArgs` -/
+theorem pass1_ok_typeArgs {spec : Spec} {args T : List Value} (hp : pass1 spec args = .ok T) :
+    T = typeArgs spec args := by
+  have := pass1_eq spec args
+  rw [hp] at this
+  by_cases hc : spec.countOK args.length = true
+  · simp only [hc, if_true] at this
+    cases hf : firstFail (spec.expand args.length) args with
+    | none => rw [hf] at this; simpa [typeArgs] using this
+    | some kf => obtain ⟨k, f⟩ := kf; rw [hf] at this; cases f <;> simp [Pass1.ofFail] at this
+  · simp [hc] at this
+
+/-- `C10.nonconforming_never_returned` needing well-formedness of the `Type` callback's answer
+only for THIS call's arguments. -/
+theorem result_conforms_value_prediction_at (spec : Spec) (tf : TypeFn) (impl : ImplFn) (args : List Value)
+    (hwf : ∀ t, tf (typeArgs spec args) = .ok t → Ty.wf t = true)
+    (v : Value) (h : (call spec tf impl args).1 = .ok v) :
+    ∃ t, (returnTypeForValuesPub spec tf args).1 = .ok t ∧ Ty.conformErrs t v.ty = 0 := by
+  rw [call_eq_finish] at h
+  obtain ⟨k, o, ho, hk⟩ := callUnrefined_case' spec tf impl args
+  rw [ho] at h
+  cases hk with
+  | dynShort k' u hc hat hwu =>
+    exact ⟨.dyn, by rw [rtfvPub_fail tf hc hat], conform_dyn _⟩
+  | unkShort rt u hc hap ht hb hwu =>
+    refine ⟨rt, by rw [rtfvPub_pass tf hc hap, ht], ?_⟩
+    rw [(finish_ok_val h).1, hwu.1]
+    exact conform_refl rt (hwf _ ht)
+  | value rt v0 u hc hap ht hnb hi hcf hwu =>
+    refine ⟨rt, by rw [rtfvPub_pass tf hc hap, ht], ?_⟩
+    rw [(finish_ok_val h).1, hwu.1]
+    exact hcf
+  | _ => simp [finish_err, finish_unmodelled] at h
+
+/-- `type_only_prediction_sound` with both obligations (well-formed answer, monotonicity) asked
+only at the argument list the `Type` callback is handed in THIS call — the form the `_partial`
+monotonicity theorems instantiate. -/
+theorem type_only_prediction_sound_at (spec : Spec) (tf : TypeFn) (impl : ImplFn) (args : List Value)
+    (hwf : ∀ t, tf (typeArgs spec args) = .ok t → Ty.wf t = true)
+    (hm : ∀ t, tf (typeArgs spec args) = .ok t →
+      ∃ t', tf ((typeArgs spec args).map unkOf) = .ok t' ∧ Admits t' t)
+    (v : Value) (h : (call spec tf impl args).1 = .ok v) :
+    ∃ t', (returnType spec tf (args.map (·.ty))).1 = .ok t' ∧ Ty.conformErrs t' v.ty = 0 := by
+  rw [C10.returnType_is_rtfv_of_unknowns, map_unknown_ty]
+  obtain ⟨t, ht, hc⟩ := result_conforms_value_prediction_at spec tf impl args hwf v h
+  rcases call_ok_pass1 h with hd | ⟨T, t0, hp, ht0⟩
+  · rw [rtfvPub_of_pass1_dyn hd] at ht
+    refine ⟨.dyn, rtfvPub_of_pass1_dyn (pass1_unkOf_dyn hd), ?_⟩
+    cases ht; exact hc
+  · rw [rtfvPub_of_pass1_ok hp ht0] at ht
+    cases ht
+    have hT := pass1_ok_typeArgs hp
+    subst hT
+    obtain ⟨t', ht', had⟩ := hm _ ht0
+    exact ⟨t', rtfvPub_of_pass1_ok (pass1_unkOf_ok hp) ht', had _ hc⟩
+
+section PerFunction
+open Stdlib
+
+theorem typeMono_length : TypeMono lengthType := Stdlib.typeMono_length
+theorem typeMono_hasindex : TypeMono hasIndexType := Stdlib.typeMono_hasIndex
+/-- `index` looks at the VALUE of a tuple key; on a placeholder key it answers the placeholder type -/
+theorem typeMono_index : TypeMono indexType := Stdlib.typeMono_index
+/-- `element` looks at the VALUE of the index for tuples; placeholder index ↦ placeholder type -/
+theorem typeMono_element : TypeMono elementType := Stdlib.typeMono_element
+theorem typeMono_coalescelist : TypeMono coalesceListType := Stdlib.typeMono_coalesceList
+/-- for every answer of `convert.UnifyUnsafe` -/
+theorem typeMono_coalesce (E : Env) : TypeMono (coalesceType E) := Stdlib.typeMono_coalesce E
+theorem typeMono_compact : TypeMono compactType := static_typeMono _
+theorem typeMono_contains : TypeMono containsType := static_typeMono _
+theorem typeMono_sort : TypeMono sortType := static_typeMono _
+theorem typeMono_range : TypeMono rangeType := static_typeMono _
+theorem typeMono_sethaselement : TypeMono setHasElementType := static_typeMono _
+theorem typeMono_distinct : TypeMono distinctType := Stdlib.typeMono_distinct
+theorem typeMono_chunklist : TypeMono chunklistType := Stdlib.typeMono_chunklist
+/-- `flatten` walks the VALUE; anything not wholly known ↦ placeholder type -/
+theorem typeMono_flatten (E : Env) : TypeMono (flattenType E) := Stdlib.typeMono_flatten E
+theorem typeMono_keys : TypeMono keysType := Stdlib.typeMono_keys
+theorem typeMono_values : TypeMono valuesType := Stdlib.typeMono_values
+theorem typeMono_reverse : TypeMono reverseType := Stdlib.typeMono_reverse
+/-- `zipmap` reads the key VALUES when the values are a tuple; keys not wholly known ↦ placeholder type -/
+theorem typeMono_zipmap (E : Env) : TypeMono (zipmapType E) := Stdlib.typeMono_zipmap E
+/-- `slice` reads the index VALUES and the list length; placeholders ↦ placeholder type (tuples) or
+the list type itself -/
+theorem typeMono_slice : TypeMono sliceType := Stdlib.typeMono_slice
+/-- for every answer of `convert.UnifyUnsafe` -/
+theorem typeMono_setproduct (E : Env) : TypeMono (setProductType E) := Stdlib.typeMono_setProduct E
+/-- `concat` reads known-ness and length of list arguments; for every answer of `convert.UnifyUnsafe` -/
+theorem typeMono_concat (E : Env) : TypeMono (concatType E) := Stdlib.typeMono_concat E
+/-- `lookup` asks `convert.Convert(default, elementType)`: monotone for every `Convert` that succeeds
+on the placeholder of a value it converts (`EnvConvertMono`, a fact about package convert: C08) -/
+theorem typeMono_lookup (E : Env) (hE : EnvConvertMono E) : TypeMono (lookupType E) :=
+  Stdlib.typeMono_lookup E hE
+
+/-- `merge`: the full statement — FALSE of the code (recorded finding
+`result-not-conforming-to-type-prediction:MergeFunc:null-argument`). -/
+def TypeMonoMerge : Prop := TypeMono mergeType
+
+/-- `merge` is monotone on every argument list without a NULL OBJECT argument (null maps,
+unknown maps, marks, dynamically typed arguments are all fine). -/
+theorem typeMono_merge_partial (as : List Value) (t : Ty)
+    (hn : ∀ a ∈ as, isObjectTy a.ty = true → a.unmark.isNull = false) (h : mergeType as = .ok t) :
+    ∃ t', mergeType (as.map unkOf) = .ok t' ∧ Admits t' t :=
+  Stdlib.typeMono_merge_partial as t hn h
+
+/-- the witness: `merge(null object{z}, {a = true})` — value-based prediction `object{a}`,
+type-only prediction `object{a,z}`, which `object{a}` does not conform to -/
+theorem typeMono_merge_counterexample :
+    mergeType mergeCexArgs = .ok (.object ["a"] [.bool] [false]) ∧
+    mergeType (mergeCexArgs.map unkOf) = .ok (.object ["a", "z"] [.bool, .bool] [false, false]) ∧
+    Ty.conformErrs (.object ["a"] [.bool] [false]) (.object ["a"] [.bool] [false]) = 0 ∧
+    Ty.conformErrs (.object ["a", "z"] [.bool, .bool] [false, false]) (.object ["a"] [.bool] [false]) ≠ 0 :=
+  Stdlib.typeMono_merge_counterexample
+
+theorem typeMonoMerge_false : ¬ TypeMonoMerge := Stdlib.typeMonoMerge_false
+
+/-- the set algebra functions (`setunion`, `setintersection`, `setsubtract`,
+`setsymmetricdifference` share `setOperationReturnType`): the full statement — FALSE of the code
+(recorded finding `…:empty-dynamic-collection`). -/
+def TypeMonoSetOp : Prop := ∀ E : Env, TypeMono (setOpType E)
+
+/-- monotone on every argument list without a KNOWN EMPTY `set(dynamic)` argument, for every
+answer of `convert.UnifyUnsafe` -/
+theorem typeMono_setop_partial (E : Env) (as : List Value) (t : Ty)
+    (hs : ∀ a ∈ as, skippedBySetOp a = false) (h : setOpType E as = .ok t) :
+    ∃ t', setOpType E (as.map unkOf) = .ok t' ∧ Admits t' t :=
+  Stdlib.typeMono_setOp_partial E as t hs h
+
+/-- the witness of the finding: `(set(list(number)){}, set(dynamic){}, set(tuple[string]){})`
+with the real `UnifyUnsafe` answers on the two type lists -/
+theorem typeMono_setop_counterexample :
+    setOpType setOpCexEnv setOpCexArgs = .ok (.set (.list .string)) ∧
+    setOpType setOpCexEnv (setOpCexArgs.map unkOf) = .ok (.set (.list .number)) ∧
+    Ty.conformErrs (.set (.list .string)) (.set (.list .string)) = 0 ∧
+    Ty.conformErrs (.set (.list .number)) (.set (.list .string)) ≠ 0 :=
+  Stdlib.typeMono_setOp_counterexample
+
+theorem typeMonoSetOp_false : ¬ TypeMonoSetOp := Stdlib.typeMonoSetOp_false
+
+end PerFunction
 
 /-! ### the hypotheses are satisfiable -/
 
